@@ -102,6 +102,7 @@ def c10(ctx):
         want = expected[(c["name"], c["depth"])]
         for entry, r in c["results"].items():
             ctx.evaluations += 1
+            ctx.traces += 1     # one real count compared with the path count of the TLC-generated graph
             if c["depth"] >= 2:
                 ctx.nontrivial += 1
             if "panic" in r:
